@@ -209,6 +209,12 @@ def check_case(case, ctx=None, fresh=False):
                                 f"saved file {name}/{fn} uses keys {unknown} "
                                 f"that the mapping config does not define")
                         e = {inv[k]: v for k, v in e.items()}
+                    missing = [k for k in PV_KEYS
+                               if k not in e and k != "previousEventIds"]
+                    if missing:
+                        raise Violation(
+                            f"saved file {name}/{fn}: an event lacks the "
+                            f"field(s) {missing}: {e}")
                     evs.append(e)
                 saved.append(canon_events(evs))
             if sorted(saved) != sorted(mem[name]):
